@@ -250,3 +250,77 @@ func litFor(T, v string) string {
 	}
 	return v
 }
+
+// ---------- C07 ----------
+// The obligations of Sequence speak about ghost history, so the model is not an input; the replay
+// runs the operation histories that the failed obligation's function takes part in (Next / crash =
+// abandon the object / Release / restart) on the real in-memory store and checks that no number is
+// handed out twice.
+
+func init() { replayGens["c07"] = replayC07 }
+
+func replayC07(o *Obligation) (string, string, string, bool) {
+	if !strings.HasPrefix(o.Name, "kvstore.Sequence.") && !strings.HasPrefix(o.Name, "kvstore.NewSequence") {
+		return "", "", "", false
+	}
+	src := `package kvstore_test
+
+import (
+	"errors"
+	"testing"
+
+	"github.com/iotaledger/hive.go/kvstore"
+	"github.com/iotaledger/hive.go/kvstore/mapdb"
+)
+
+// faulty fails the next Set (once) when armed: every store call is a possible failure point.
+type faulty struct {
+	kvstore.KVStore
+	failSet bool
+}
+
+func (f *faulty) Set(k kvstore.Key, v kvstore.Value) error {
+	if f.failSet {
+		f.failSet = false
+		return errors.New("injected store failure")
+	}
+	return f.KVStore.Set(k, v)
+}
+
+// scripts: N = Next on the current object, R = Release, C = crash/restart (abandon the object, open a
+// new one), F = the next store write fails
+func TestVerifReplay(t *testing.T) {
+	scripts := []string{"NNNCN", "NCRCN", "NNRNCN", "CRCN", "NNNRCRN", "NCNRNCRCNN", "NNNNNNCNRCN", "RNCRN",
+		"FNNNCN", "NNNFNNNCN", "NFRNCN", "NNFRNCNN", "FNFNNRCN"}
+	for _, interval := range []uint64{1, 3, 10} {
+		for _, sc := range scripts {
+			store := &faulty{KVStore: mapdb.NewMapDB()}
+			seen := map[uint64]bool{}
+			seq, _ := kvstore.NewSequence(store, []byte("k"), interval)
+			var last uint64
+			first := true
+			for i, op := range sc {
+				switch op {
+				case 'N':
+					v, err := seq.Next()
+					if err != nil {
+						continue
+					}
+					if seen[v] || (!first && v <= last) {
+						t.Fatalf("REPLAY-VIOLATION Sequence handed out %d twice / not increasing (script %s step %d, interval %d)", v, sc, i, interval)
+					}
+					seen[v], last, first = true, v, false
+				case 'R':
+					_ = seq.Release()
+				case 'F':
+					store.failSet = true
+				case 'C':
+					seq, _ = kvstore.NewSequence(store, []byte("k"), interval)
+				}
+			}
+		}
+	}
+}
+`
+	return "kvstore", ".", src, true
+}
